@@ -332,6 +332,8 @@ fn fill_leaf(rng: &mut Rng, z: &mut SZone, other_zone_target: &[u8]) {
     z.insert(&nm(&[b"www"], &apex), T_A, 300, vec![a1, a2]);
     z.insert(&nm(&[b"www"], &apex), T_TXT, 300, vec![txt_rd("hello")]);
     z.insert(&nm(&[b"*", b"w"], &apex), T_A, 120, vec![a_rd(rng)]);
+    // an existing name next to the wildcard: names below it are not the wildcard's to answer
+    z.insert(&nm(&[b"host", b"w"], &apex), T_A, 120, vec![a_rd(rng)]);
     z.insert(&nm(&[b"alias"], &apex), T_CNAME, 60, vec![nm(&[b"www"], &apex)]);
     z.insert(&nm(&[b"walias"], &apex), T_CNAME, 60, vec![nm(&[b"x", b"w"], &apex)]);
     z.insert(&nm(&[b"out"], &apex), T_CNAME, 60, vec![other_zone_target.to_vec()]);
@@ -1213,6 +1215,8 @@ fn queries(world: &World) -> Vec<(Vec<u8>, u16, usize)> {
             (vec![&b"x"[..], b"w"], T_A),  // wildcard
             (vec![&b"y"[..], b"z"[..].into(), b"w"], T_A), // wildcard, two labels deep
             (vec![&b"x"[..], b"w"], T_TXT), // wildcard nodata
+            (vec![&b"host"[..], b"w"], T_A),  // the wildcard's sibling
+            (vec![&b"x"[..], b"host"[..].into(), b"w"], T_A), // nxdomain below the wildcard's sibling: the wildcard does not apply
             (vec![&b"w"[..]], T_A),        // ent nodata
             (vec![&b"ent"[..]], T_A),      // ent nodata
             (vec![&b"alias"[..]], T_A),    // cname
@@ -1507,6 +1511,51 @@ fn one_world(c: &mut Ctx, rt: &tokio::runtime::Runtime, fam: &str, idx: u64) {
             }
         }
     }
+    // ---- a genuine, validly signed wildcard RRset replayed as the answer for a name it does not cover: x.host.w.<zone>
+    // lies below the existing name host.w.<zone>, so its closest encloser is that name and not the wildcard's parent; the
+    // truthful answer is NXDOMAIN. The proof that the name itself does not exist is genuine too.
+    ctx::step("replayed wildcard");
+    for zi in 2..world.zones.len() {
+        let z = &world.zones[zi];
+        if !z.signed || expected_state(&spec, zi) != "Secure" {
+            continue;
+        }
+        let star = nm(&[b"*", b"w"], &z.apex);
+        let Some(ws) = z.get(&star, T_A) else { continue };
+        for labels in [vec![&b"x"[..], b"host", b"w"], vec![&b"a"[..], b"b", b"host", b"w"]] {
+            let qname = nm(&labels, &z.apex);
+            let mut r = Resp { rcode: 0, answer: vec![], authority: vec![], kind: "wildcard", wild: true };
+            push_set(&mut r.answer, ws, Some(&qname));
+            let dk = match &z.denial {
+                Denial::Nsec => {
+                    if let Some(n) = World::nsec_cover(z, &qname) {
+                        World::add_unique(&mut r.authority, n);
+                    }
+                    "nsec"
+                }
+                Denial::Nsec3 { .. } => {
+                    // the best an attacker has: the NSEC3 covering the name itself, and the one matching the claimed encloser
+                    if let Some(n) = World::nsec3_cover(z, &qname) {
+                        World::add_unique(&mut r.authority, n);
+                    }
+                    if let Some(n) = World::nsec3_match(z, &nm(&[b"w"], &z.apex)) {
+                        World::add_unique(&mut r.authority, n);
+                    }
+                    "nsec3"
+                }
+            };
+            let wire = to_wire(rng.u16(), &qname, T_A, &r);
+            let (got, _) = validate(rt, &world, UpFault::None, idx * 1000 + 998, &wire);
+            match got {
+                Out::Panic(pi) => c.violation(&format!("panic:{}", pi.site()), &format!("panic validating a replayed wildcard answer: {} at {}:{}", pi.msg, pi.file, pi.line), c.replay_of(fam, idx, json!({"zones": denials, "wire": hex(&wire)}))),
+                Out::State("Secure") => c.violation(&format!("secure-despite:wildcard-replayed-below-an-existing-name:{}", dk), &format!("the signed RRset of {} presented as the answer for {} validates as Secure, although {} exists and is the closest encloser (the wildcard does not apply; the truthful answer is NXDOMAIN)", w::name_text(&star), w::name_text(&qname), w::name_text(&nm(&[b"host", b"w"], &z.apex))), c.replay_of(fam, idx, json!({"zones": denials, "wire": hex(&wire)}))),
+                _ => {
+                    c.count("replayed_wildcards_rejected", 1);
+                    c.eval(&("replayed-wildcard", dk, labels.len()));
+                }
+            }
+        }
+    }
     if c.want_sample() {
         c.sample(json!({"zones": denials, "queries": qs.len()}));
     }
@@ -1684,7 +1733,7 @@ pub fn run(c: &mut Ctx) {
         one_world(c, &rt, fam, idx);
     }
     if !c.replaying() {
-        for k in ["honest:positive", "honest:wildcard", "honest:nodata", "honest:nodata-ent", "honest:nodata-wildcard", "honest:nxdomain", "honest:cname", "damaged:corrupt-signature", "damaged:drop-proof", "damaged:expired", "upstream:corrupt-signature", "upstream:servfail", "rollover_withdrawn_key_refused", "expired_after_first_validation_refused"] {
+        for k in ["honest:positive", "honest:wildcard", "honest:nodata", "honest:nodata-ent", "honest:nodata-wildcard", "honest:nxdomain", "honest:cname", "damaged:corrupt-signature", "damaged:drop-proof", "damaged:expired", "upstream:corrupt-signature", "upstream:servfail", "rollover_withdrawn_key_refused", "expired_after_first_validation_refused", "replayed_wildcards_rejected", "forged_denials_rejected"] {
             c.floor(k, 3);
         }
     }
